@@ -390,6 +390,22 @@ def gen_dict_union(rng):
     return samples, [f]
 
 
+def gen_literal_boundary(rng):
+    """sample lists in which a vocabulary of exactly 14 / 15 / 16 short values reaches one position through unions (list
+    fields joined over samples; similar sibling objects merged by the registry), most of it in one sample and single
+    values in others — the result must not depend on which sample comes first"""
+    k = rng.choice([14, 15, 15, 15, 16])
+    words = ["w%02d" % i for i in range(k)]
+    some = rng.sample(words, k=rng.randint(1, 2))
+    if rng.random() < 0.5:
+        samples = [{"tags": list(words), "n": 1}, {"tags": [some[0]], "n": 2}, {"tags": some, "n": 3}]
+    else:
+        full = [{"kind": w, "v": 1, "u": 2, "t": 3} for w in words]
+        samples = [{"first": {"kind": some[0], "v": 1, "u": 2, "t": 3}}, {"second": full}, {"third": [{"kind": s, "v": 1, "u": 2, "t": 3} for s in some]}]
+    rng.shuffle(samples)
+    return samples
+
+
 def gen_shared_samples(rng):
     return [gen_shared_shape(rng) for _ in range(rng.randint(1, 2))]
 
